@@ -200,7 +200,14 @@ func RenderLocal(r *rand.Rand, local string) string {
 }
 
 // NameKind names the generator class of a display name.
-var NameKindNames = []string{"none", "none-angle", "atoms", "quoted", "quoted-specials", "encoded-word", "raw-utf8", "quoted-utf8"}
+var NameKindNames = []string{"none", "none-angle", "atoms", "quoted", "quoted-specials", "encoded-word", "raw-utf8", "quoted-utf8", "quoted-hard", "encoded-word-hard"}
+
+// HardNames: display names a re-serialisation that is not Address.String() gets wrong: TAB, no-break
+// space, ZWNJ / ZWJ, soft hyphen, LRM / RLM, line separator (Go's %q / strconv.Quote turn them into
+// \t, \u00a0 ... which an RFC 5322 reader takes for quoted-pairs), together with quotes, backslashes,
+// commas and parentheses.
+var HardNames = []string{"Jean\tLuc", "Jean\u00a0Luc", "zw\u200cnj Name", "zw\u200dj Name", "soft\u00adhyphen", "lrm\u200e Name", "Name\u200frlm",
+	"line\u2028sep", "Tab\there, \"Q\" (x) \\ y", "N\u00a0B, \"q\" (p)\\", "a\u200db\u00adc\u200ed", "(paren\u00a0) \\n"}
 
 var asciiNames = []string{"John Doe", "Alice", "Bob B. Builder", "X Y Z", "Support Team"}
 var specialNames = []string{"Doe, John", "Sales <EMEA>", "a@b", "semi;colon: x", "back\\slash", "say \"hi\"", "(paren)", "dot. dot"}
@@ -235,10 +242,112 @@ func RenderAddress(r *rand.Rand, mb Mailbox) (string, string, int) {
 	case 6:
 		n := strings.ReplaceAll(strings.ReplaceAll(pick(r, utf8Names), ",", ""), ".", "")
 		return n + " <" + spec + ">", n, k
-	default:
+	case 7:
 		n := pick(r, utf8Names)
 		return "\"" + n + "\" <" + spec + ">", n, k
+	case 8:
+		n := pick(r, HardNames)
+		return QuoteName(n) + " <" + spec + ">", n, k
+	default:
+		n := pick(r, HardNames)
+		if r.Intn(2) == 0 {
+			return mime.BEncoding.Encode("utf-8", n) + " <" + spec + ">", n, k
+		}
+		return mime.QEncoding.Encode("utf-8", n) + " <" + spec + ">", n, k
 	}
+}
+
+// QuoteName writes a display name as an RFC 5322 quoted-string (only '"' and '\\' are escaped).
+func QuoteName(n string) string {
+	return "\"" + strings.ReplaceAll(strings.ReplaceAll(n, "\\", "\\\\"), "\"", "\\\"") + "\""
+}
+
+// IntendedName reads the display name of "[display-name] <addr-spec>" / a bare addr-spec
+// independently of net/mail (RFC 5322 3.2.4 quoted-string, 3.2.3 atoms, RFC 2047 encoded words via
+// mime.WordDecoder).  ok=false whenever the form is not one of: nothing, ONE quoted-string, or words that
+// are all plain atoms / all encoded words, single blanks in between.
+func IntendedName(s string) (string, bool) {
+	s = strings.TrimSpace(s)
+	if !strings.HasSuffix(s, ">") {
+		return "", true
+	}
+	inq, esc, at := false, false, -1
+	for i := 0; i < len(s); i++ {
+		c := s[i]
+		switch {
+		case esc:
+			esc = false
+		case inq && c == '\\':
+			esc = true
+		case c == '"':
+			inq = !inq
+		case !inq && c == '<':
+			at = i
+		}
+	}
+	if at < 0 {
+		return "", false
+	}
+	ph := strings.TrimSpace(s[:at])
+	if ph == "" {
+		return "", true
+	}
+	if ph[0] == '"' {
+		var b strings.Builder
+		i := 1
+		for i < len(ph) {
+			c := ph[i]
+			if c == '\\' {
+				if i+1 >= len(ph) {
+					return "", false
+				}
+				b.WriteByte(ph[i+1])
+				i += 2
+				continue
+			}
+			if c == '"' {
+				if i != len(ph)-1 {
+					return "", false
+				}
+				return b.String(), true
+			}
+			b.WriteByte(c)
+			i++
+		}
+		return "", false
+	}
+	words := strings.Split(ph, " ")
+	enc, plain := 0, 0
+	var out []string
+	dec := new(mime.WordDecoder)
+	for _, w := range words {
+		if w == "" {
+			return "", false
+		}
+		if strings.HasPrefix(w, "=?") && strings.HasSuffix(w, "?=") {
+			d, err := dec.Decode(w)
+			if err != nil {
+				return "", false
+			}
+			out = append(out, d)
+			enc++
+			continue
+		}
+		for i := 0; i < len(w); i++ {
+			if !IsAtext(w[i], true) {
+				return "", false
+			}
+		}
+		out = append(out, w)
+		plain++
+	}
+	if enc > 0 && plain > 0 {
+		return "", false
+	}
+	if enc > 0 {
+		return strings.Join(out, ""), true
+	}
+	return strings.Join(out, " "), true
 }
 
 var malformed = []string{"", "not an address", "a@", "@x.test", "<>", "a b@x.test", "x@y@z.test", "\"unclosed@x.test",
